@@ -24,6 +24,12 @@ def main():
         json.dump(res.dump(), f, default=str)
     os.replace(tmp, of)
     sys.stdout.flush()
+    try:  # do not leave idle loky worker processes behind (they would linger for minutes and hold memory)
+        from joblib.externals.loky import reusable_executor as _re
+        if getattr(_re, "_executor", None) is not None:
+            _re._executor.shutdown(wait=False, kill_workers=True)
+    except Exception:
+        pass
     os._exit(0)  # do not wait for zombie threads / loky executors
 
 
